@@ -95,12 +95,12 @@ func collectPaths(v jnode, p jpath, arrays *[]jpath, nums *[]jpath) {
 }
 
 type minimiser struct {
-	t       *testing.T
-	tr      *Trace
-	sim     Sim
-	oracle  string
-	runs    int
-	maxRuns int
+	t        *testing.T
+	tr       *Trace
+	sim      Sim
+	oracle   string
+	runs     int
+	maxRuns  int
 	deadline time.Time
 }
 
